@@ -16,6 +16,7 @@ import (
 type ServerDeps interface {
 	SendResponse(conn net.Conn, response string)
 	GetUserDB(userID int64) (*sql.DB, error)
+	GetSelectedDB(state *models.ClientState) (*sql.DB, int64, error)
 	GetS3Storage() *blobstorage.S3BlobStorage
 }
 
@@ -26,8 +27,8 @@ func HandleNoop(deps ServerDeps, conn net.Conn, tag string, state *models.Client
 	// If authenticated and a folder is selected, check for mailbox updates
 	// and send untagged responses per RFC 3501
 	if state.Authenticated && state.SelectedMailboxID > 0 {
-		// Get user database
-		userDB, err := deps.GetUserDB(state.UserID)
+		// Get the database of the selected mailbox (user or role mailbox)
+		userDB, _, err := deps.GetSelectedDB(state)
 		if err != nil {
 			deps.SendResponse(conn, fmt.Sprintf("%s OK NOOP completed", tag))
 			return
@@ -108,8 +109,8 @@ func HandleIdle(deps ServerDeps, conn net.Conn, tag string, state *models.Client
 
 	buf := make([]byte, 4096)
 
-	// Get user database
-	userDB, err := deps.GetUserDB(state.UserID)
+	// Get the database of the selected mailbox (user or role mailbox)
+	userDB, _, err := deps.GetSelectedDB(state)
 	if err != nil {
 		deps.SendResponse(conn, fmt.Sprintf("%s NO Database error", tag))
 		return
